@@ -424,7 +424,10 @@ func (s *scriptWriter) do(p []byte) (int, error) {
 	return n, mkErr(o.kind)
 }
 
-func (s *scriptWriter) Write(p []byte) (int, error) { return s.do(p) }
+func (s *scriptWriter) Write(p []byte) (int, error) {
+	s.streams = append(s.streams, diam.InvalidStreamID) // a plain Write names no stream
+	return s.do(p)
+}
 
 // scriptStreamWriter additionally implements diam.MultistreamWriter.
 type scriptStreamWriter struct {
@@ -513,7 +516,7 @@ func c07Retry(e *Env) {
 			var nn int
 			nn, err = m.WriteToStreamWithRetry(w, stream, uint(retries))
 			n = int64(nn)
-			streams = w.streams
+			streams = w.scriptWriter.streams
 		} else {
 			w := &scriptWriter{script: script}
 			sw = w
@@ -525,7 +528,7 @@ func c07Retry(e *Env) {
 	}
 	c07CheckRetry(e, "writer", want, script, retries, sw.calls, sw.accepted, n, err)
 	for _, s := range streams {
-		if s != stream {
+		if multi && s != stream {
 			e.Fail("C07/retry-wrong-stream", "an attempt was written to stream %d, the caller asked for %d", s, stream)
 		}
 	}
